@@ -37,7 +37,23 @@ func main() {
 	replay := flag.String("replay", "", "replay file written by a previous run")
 	list := flag.Bool("list", false, "list properties")
 	genm := flag.String("genmanifest", "", "write MANIFEST.json to this path and exit")
+	gens := flag.String("gensymbols", "", "write the symbol fingerprints of -repo (used for rename tolerance) to this path and exit")
 	flag.Parse()
+	verifDirFlag = *verif
+	if *gens != "" {
+		disableAliases = true
+		P, err := load(*repo, *cgm, nil)
+		if err != nil {
+			fmt.Println("ERROR:", err)
+			os.Exit(2)
+		}
+		if err := writeSymbols(*gens, snapshot(P.SSA, P.AllFns)); err != nil {
+			fmt.Println("ERROR:", err)
+			os.Exit(2)
+		}
+		fmt.Println("wrote", *gens)
+		return
+	}
 	if *genm != "" {
 		genManifest(*genm)
 		return
